@@ -8,11 +8,16 @@
 package main
 
 import (
+	"bytes"
+	"encoding/binary"
 	"encoding/hex"
 	"encoding/json"
+	"flag"
 	"fmt"
 	"math"
 	"os"
+	"os/exec"
+	"path/filepath"
 	"strings"
 
 	"github.com/gcash/bchd/chaincfg/chainhash"
@@ -585,7 +590,10 @@ func murmurCase(seed uint32, data []byte, corr bool) {
 func bitIdxCase(size int, tweak, i uint32, data []byte, corr bool) {
 	f := bloom.LoadFilter(&wire.MsgFilterLoad{Filter: make([]byte, size), HashFuncs: i + 1, Tweak: tweak})
 	var got uint32
-	if p, pm := vh.Catch(func() { got = f.VerifBitIndex(i, data) }); p {
+	if !builtWithVerifTag {
+		return // production build: no hook; the bit numbers are observed through Add + MsgFilterLoad by the histories
+	}
+	if p, pm := vh.Catch(func() { got, _ = bitIndexHook(f, i, data) }); p {
 		rep.Violate("C09:panic:hash", "Filter.hash panicked: "+pm, map[string]interface{}{"size": size, "tweak": tweak, "hashnum": i, "data": vh.Hex(data)})
 		return
 	}
@@ -726,7 +734,172 @@ func newFilterThenReload(r *vh.RNG) {
 	}
 }
 
+// structuredTxids: ids with regular contents - constant bytes, position markers, one marked byte at every
+// position, 32-bit words repeated or placed at every word-aligned offset (a dictionary of values programmers
+// single out: all-zero, all-ones, sign bits, well-known debug constants; both byte orders) - next to random ones
+func structuredTxids(r *vh.RNG, thorough bool) [][]byte {
+	var out [][]byte
+	for _, b := range []byte{0x00, 0xff, 0x01, 0x80, 0x7f} {
+		out = append(out, filled(32, b))
+	}
+	asc, desc, hi := make([]byte, 32), make([]byte, 32), make([]byte, 32)
+	for i := range asc {
+		asc[i], desc[i], hi[i] = byte(i), byte(31-i), 0x80|byte(i)
+	}
+	out = append(out, asc, desc, hi)
+	for pos := 0; pos < 32; pos++ {
+		a := make([]byte, 32)
+		a[pos] = 0xff
+		b := r.Bytes(32)
+		b[pos] = 0
+		out = append(out, a, b)
+	}
+	words := []uint32{0, 0xffffffff, 0x80000000, 0x7fffffff, 1, 0x01000000, 0xdeadbeef, 0xcafebabe, 0xfeedface, 0xbaadf00d, 0x0badc0de, 0xdeadc0de,
+		0x8badf00d, 0xdefec8ed, 0xfaceb00c, 0xabadcafe, 0xdeadfa11, 0x1badb002, 0xe8f3e1e3, 0xd9b4bef9, 0x0709110b, 0xdab5bffa}
+	nonzero := func(n int) []byte {
+		b := r.Bytes(n)
+		for i := range b {
+			if b[i] == 0 {
+				b[i] = byte(1 + i)
+			}
+		}
+		return b
+	}
+	for _, w := range words {
+		rep := make([]byte, 32)
+		for k := 0; k < 8; k++ {
+			binary.BigEndian.PutUint32(rep[4*k:], w)
+		}
+		out = append(out, rep)
+		for k := 0; k < 8; k++ {
+			if !thorough && k != 0 && k != 7 && k != int(w%6)+1 {
+				continue
+			}
+			be, le := nonzero(32), nonzero(32)
+			binary.BigEndian.PutUint32(be[4*k:], w)
+			binary.LittleEndian.PutUint32(le[4*k:], w)
+			out = append(out, be, le)
+		}
+	}
+	n := 60
+	if thorough {
+		n = 600
+	}
+	for i := 0; i < n; i++ {
+		out = append(out, r.Bytes(32))
+	}
+	return out
+}
+
+// outpointBytesFamily: on an all-zero 64-byte / 16-function filter the array after ONE AddOutPoint is a fingerprint
+// of the byte string that was hashed; it must be the fingerprint of txid ++ LE32(index) (reference; and, in the
+// hooked build, exactly the bit numbers Filter.hash assigns to those 36 bytes); MatchesOutPoint must find an
+// outpoint a conforming peer inserted and must not find its one-byte neighbours
+func outpointBytesFamily(r *vh.RNG, corrAll bool) {
+	idxs := []uint32{0, 1, 0xff, 0x100, 0xffff, 0x10000, 0x10001, 0xffffff, 0x1000000, 0x7fffffff, 0x80000000, 0xfffffffe, 0xffffffff, 0x01020304, 0xdeadbeef}
+	ids := structuredTxids(r, cfg.Thorough() || cfg.Search)
+	const size, nh = 64, 16
+	for j, id := range ids {
+		pick := []uint32{vh.Pick(r, idxs), vh.Pick(r, idxs)}
+		if cfg.Thorough() || cfg.Search || j < 8 {
+			pick = idxs
+		}
+		for _, idx := range pick {
+			tw := r.U32()
+			ser := refOutpoint(id, idx)
+			near := append([]byte{}, id...)
+			near[r.Intn(32)] ^= 1 << uint(r.Intn(8))
+			h := history{Init: recOf(make([]byte, size), nh, tw, 0), Ops: []opRec{
+				{Op: "addoutpoint", Data: vh.Hex(id), Index: idx}, {Op: "matchesoutpoint", Data: vh.Hex(id), Index: idx}, {Op: "matches", Data: vh.Hex(ser)},
+				{Op: "matchesoutpoint", Data: vh.Hex(near), Index: idx}, {Op: "matchesoutpoint", Data: vh.Hex(id), Index: idx ^ (1 << uint(r.Intn(32)))},
+				// a conforming peer's filter holding this outpoint (other tweak)
+				{Op: "reload", Msg: popMsg(size, nh, tw^0x5a5a5a5a, 0, [][]byte{ser})}, {Op: "matchesoutpoint", Data: vh.Hex(id), Index: idx},
+				{Op: "matchesoutpoint", Data: vh.Hex(near), Index: idx}}}
+			runHistory(h, corrAll && j%40 == 3 && idx == pick[0], "opbytes")
+			if builtWithVerifTag {
+				f := bloom.LoadFilter(&wire.MsgFilterLoad{Filter: make([]byte, size), HashFuncs: nh, Tweak: tw})
+				var hh chainhash.Hash
+				copy(hh[:], id)
+				want := make([]byte, size)
+				p, pm := vh.Catch(func() {
+					f.AddOutPoint(wire.NewOutPoint(&hh, idx))
+					for i := uint32(0); i < nh; i++ {
+						b, _ := bitIndexHook(f, i, ser)
+						want[b>>3] |= 1 << (b & 7)
+					}
+				})
+				rep.Count("opbytes:hook", fmt.Sprintf("%x/%d/%d", id, idx, tw), true)
+				if p {
+					rep.Violate("C09:panic:addoutpoint", "AddOutPoint panicked: "+pm, map[string]interface{}{"history": h})
+				} else if got := f.MsgFilterLoad().Filter; !bytes.Equal(got, want) {
+					rep.Violate("C09:bip37:outpoint_bytes", "the bits AddOutPoint sets are not the bit numbers Filter.hash assigns to txid ++ LE32(index): other bytes were hashed",
+						map[string]interface{}{"history": h, "txid": vh.Hex(id), "index": idx, "expected_hashed_bytes": vh.Hex(ser)})
+				}
+			}
+		}
+	}
+}
+
+// ---------------------------------------------------------------------------
+// the production configuration (Round 3).  bin/check builds this command with -tags verif; code of the library
+// that is compiled only WITHOUT that tag is then not in this binary.  The hooked binary therefore builds the same
+// command a second time with no tag at all (what every user of the library compiles) and runs all monitors that
+// need no hook in it; its violations are merged under their own keys, the replay says which build showed them.
+func harnessDir() string {
+	if exe, err := os.Executable(); err == nil {
+		d := filepath.Dir(filepath.Dir(exe))
+		if _, err := os.Stat(filepath.Join(d, "go.mod")); err == nil {
+			return d
+		}
+	}
+	wd, _ := os.Getwd()
+	return wd
+}
+
+func runProdChild(extra ...string) {
+	if !builtWithVerifTag {
+		return
+	}
+	dir := harnessDir()
+	bin := filepath.Join(dir, "bin", "c09_prod")
+	build := exec.Command("go", "build", "-o", bin, "./cmd/c09")
+	build.Dir = dir
+	if out, err := build.CombinedOutput(); err != nil {
+		rep.Extra["production_build"] = "go build (no tags) of cmd/c09 failed: " + err.Error() + ": " + string(clip(out))
+		fmt.Fprintln(os.Stderr, "c09: production build failed:", err, string(out))
+		return
+	}
+	out := filepath.Join(cfg.Out, "prod")
+	args := append([]string{"-prodchild", "-seed", fmt.Sprint(cfg.Seed), "-tier", cfg.Tier, "-out", out}, extra...)
+	cmd := exec.Command(bin, args...)
+	cmd.Dir = dir
+	cmd.Stderr = os.Stderr
+	if err := cmd.Run(); err != nil {
+		rep.Extra["production_build"] = "run failed: " + err.Error()
+	}
+	raw, err := os.ReadFile(filepath.Join(out, "report.json"))
+	if err != nil {
+		return
+	}
+	var pr vh.Report
+	if json.Unmarshal(raw, &pr) != nil {
+		return
+	}
+	os.RemoveAll(out)
+	rep.Extra["production_build"] = fmt.Sprintf("cmd/c09 rebuilt without any build tag and run as a child: %d executions, %d violations", pr.Evaluations, len(pr.Violations))
+	rep.Histogram["production-build executions"] = pr.Evaluations
+	for _, v := range pr.Violations {
+		r, _ := v.Replay.(map[string]interface{})
+		if r == nil {
+			r = map[string]interface{}{"input": v.Replay}
+		}
+		r["build"] = "production configuration (go build without -tags verif); the hooked build may not show it"
+		rep.Violate(v.Key, v.What, r)
+	}
+}
+
 func main() {
+	prodChild := flag.Bool("prodchild", false, "internal: monitors only (the production-configuration child)")
 	cfg = vh.ParseFlags("C09")
 	rep = vh.NewReport(cfg)
 	rep.Rule = "a MurmurHash3/bit-index evaluation is non-trivial always (distinct by seed/tweak/size/data); a history is non-trivial when at least one item was inserted into a loaded filter with a non-empty array (distinct by the whole history); a sizing case when the resulting array is non-empty"
@@ -745,11 +918,12 @@ func main() {
 		if rp.Input.History != nil {
 			runHistory(*rp.Input.History, false, "replay")
 		}
+		runProdChild("-replay", cfg.Replay)
 		vh.Must(rep.Write(cfg))
 		return
 	}
 
-	corrAll := !cfg.Search
+	corrAll := !cfg.Search && !*prodChild
 
 	// wire limits as linked
 	cases.Add(fmt.Sprintf("Limits %d %d", wire.MaxFilterLoadFilterSize, wire.MaxFilterLoadHashFuncs), map[string]interface{}{"kind": "limits"})
@@ -1000,6 +1174,49 @@ func main() {
 		}
 	}
 
+	// --- every small item length through every entry point (Round 3): the EMPTY item first.  A query before the
+	// insertion, the insertion, the query, near misses (one byte shorter / longer / last byte changed); zero-filled and
+	// random contents; AddHash of the all-zero hash, AddOutPoint of the null outpoint and of (zero hash, 0)
+	r = rng.Fork("smalllen")
+	for _, shape := range []struct {
+		sz int
+		nh uint32
+	}{{3, 5}, {8, 1}, {64, 11}, {1, 50}, {36000, 50}} {
+		for n := 0; n <= 72; n++ {
+			if shape.sz == 36000 && n > 8 && !cfg.Thorough() && !cfg.Search {
+				continue
+			}
+			for v := 0; v < 2; v++ {
+				x := r.Bytes(n)
+				if v == 1 {
+					x = make([]byte, n)
+				}
+				tw := vh.Pick(r, wrapTweaks(r, shape.nh))
+				h := history{Init: recOf(make([]byte, shape.sz), shape.nh, tw, uint32(r.Intn(3))),
+					Ops: []opRec{{Op: "matches", Data: vh.Hex(x)}, {Op: "add", Data: vh.Hex(x)}, {Op: "matches", Data: vh.Hex(x)},
+						{Op: "matches", Data: vh.Hex(append(append([]byte{}, x...), 0))}}}
+				if n > 0 {
+					y := append([]byte{}, x...)
+					y[n-1] ^= 0x80
+					h.Ops = append(h.Ops, opRec{Op: "matches", Data: vh.Hex(x[:n-1])}, opRec{Op: "matches", Data: vh.Hex(y)})
+				}
+				// the same item offered by a peer's populated filter
+				h.Ops = append(h.Ops, opRec{Op: "reload", Msg: popMsg(shape.sz, shape.nh, tw+1, 0, [][]byte{x})}, opRec{Op: "matches", Data: vh.Hex(x)})
+				runHistory(h, corrAll && shape.sz <= 64 && (n <= 5 || (n+v)%9 == 0) && (v == 0 || n <= 1), "smalllen")
+			}
+		}
+		zero := strings.Repeat("00", 32)
+		h := history{Init: recOf(make([]byte, shape.sz), shape.nh, r.U32(), 1), Ops: []opRec{
+			{Op: "addhash", Data: zero}, {Op: "matches", Data: zero}, {Op: "matchesoutpoint", Data: zero, Index: 0},
+			{Op: "addoutpoint", Data: zero, Index: 0xffffffff}, {Op: "matchesoutpoint", Data: zero, Index: 0xffffffff}, {Op: "matchesoutpoint", Data: zero, Index: 0},
+			{Op: "addoutpoint", Data: zero, Index: 0}, {Op: "matchesoutpoint", Data: zero, Index: 0}, {Op: "matches", Data: zero + "00000000"},
+			{Op: "add", Data: ""}, {Op: "matches", Data: ""}}}
+		runHistory(h, corrAll && shape.sz <= 64, "smalllen")
+	}
+
+	// --- the 36 bytes AddOutPoint / MatchesOutPoint feed to the hash, for random AND structured txids (Round 3)
+	outpointBytesFamily(rng.Fork("opbytes"), corrAll)
+
 	// --- sizing
 	r = rng.Fork("sizing")
 	elems := []uint32{0, 1, 2, 3, 10, 100, 1000, 10000, 199626, 199627, 288000, 300000, 1000000, 100000000, 1 << 31, 0xfffffffe, 0xffffffff}
@@ -1021,7 +1238,12 @@ func main() {
 	rep.Extra["sizing_observed"] = sizingTable
 	rep.Extra["note_sizing"] = "float64->uint32 conversion of out-of-range values (elements*ln(fprate) beyond 2^32, NaN from elements=0 or fprate=NaN) is implementation-defined in Go; the clamps minUint32(.,36000*8)/8 and minUint32(.,50) bound the result whatever it is (theorem C09_sizing_within_limits); values above are what this platform produced"
 
-	if !cfg.Search {
+	if cfg.Search {
+		runProdChild("-search")
+	} else {
+		runProdChild()
+	}
+	if !cfg.Search && !*prodChild {
 		_, err := cases.Flush()
 		vh.Must(err)
 	}
